@@ -2,7 +2,11 @@
 
 package concentrated_liquidity
 
-import "github.com/osmosis-labs/osmosis/osmomath"
+import (
+	sdk "github.com/cosmos/cosmos-sdk/types"
+
+	"github.com/osmosis-labs/osmosis/osmomath"
+)
 
 // VerifSpreadGrowth exposes SwapState.updateSpreadRewardGrowthGlobal (per-step spread-reward growth per
 // unit of liquidity) to the verification engines. Added at build time through -overlay; not part of the repo.
@@ -17,3 +21,8 @@ func VerifSpreadGrowth(charge, liquidity, scalingFactor osmomath.Dec) (osmomath.
 
 // VerifPerUnitLiqScalingFactor exposes the accumulator scaling factor used after the migration threshold.
 func VerifPerUnitLiqScalingFactor() osmomath.Dec { return perUnitLiqScalingFactor }
+
+// VerifSpreadFactorScalingFactor exposes getSpreadFactorScalingFactorForPool (one, or 10^27 past the migration threshold).
+func (k Keeper) VerifSpreadFactorScalingFactor(ctx sdk.Context, poolId uint64) (osmomath.Dec, error) {
+	return k.getSpreadFactorScalingFactorForPool(ctx, poolId)
+}
